@@ -43,12 +43,12 @@ theorem tk_length_le {cfg : Cfg} {g : Sh} {ls : Tid → Loc} (I : Inv cfg g ls) 
   have hpub := I.pub
   obtain ⟨h1, h2, _⟩ := I.fiK
   cases hp : (ls 0).pc.published with
-  | false => simp only [hp, b2n] at hpub; cases hts : g.taskSet <;> simp [hts, b2n] at hpub <;> omega
+  | false => simp only [hp, b2n] at hpub; cases hts : g.taskSet <;> simp [hts] at hpub <;> omega
   | true =>
     have : (ls 0).pc.inLoop = true := by
       revert hp; cases (ls 0).pc <;> simp [PC.published, PC.inLoop]
     have := h2 this
-    simp only [hp, b2n] at hpub; cases hts : g.taskSet <;> simp [hts, b2n] at hpub <;> omega
+    simp only [hp, b2n] at hpub; cases hts : g.taskSet <;> simp [hts] at hpub <;> omega
 
 /-- when the producer has returned, no worker holds a task any more -/
 theorem pend_final {cfg : Cfg} {g : Sh} {ls : Tid → Loc} (I : Inv cfg g ls) (hf : (ls 0).pc = .pend) :
